@@ -45,6 +45,11 @@ pub struct Invocation {
     pub invalid: Option<Invalid>,
     /// use `--flag=value` instead of `--flag value`
     pub eq_form: bool,
+    /// the order of the options on the command line (0 = the canonical order), and `-o` for `--output`
+    #[serde(default)]
+    pub arg_order: u64,
+    #[serde(default)]
+    pub short_o: bool,
 }
 
 #[derive(Clone, Debug, PartialEq, Eq, Serialize, Deserialize)]
@@ -232,6 +237,8 @@ fn gen_invocation(r: &mut Rng, names: Option<(String, String)>) -> Invocation {
         ca_file_name: None,
         invalid: None,
         eq_form: r.chance(1, 3),
+        arg_order: if r.chance(1, 2) { r.next_u64() | 1 } else { 0 },
+        short_o: r.chance(1, 4),
     };
     if let Some(c) = &inv.country {
         if c.starts_with('-') || c.trim().is_empty() {
@@ -287,59 +294,86 @@ impl Invocation {
         ]
     }
     pub fn args(&self, out: &str) -> Vec<String> {
-        let mut a: Vec<String> = Vec::new();
-        let kv = |a: &mut Vec<String>, k: &str, v: &str| {
+        // one group per option occurrence, so that the groups can be permuted
+        let mut groups: Vec<Vec<String>> = Vec::new();
+        let kv = |k: &str, v: &str| -> Vec<String> {
             if self.eq_form {
-                a.push(format!("{k}={v}"));
+                vec![format!("{k}={v}")]
             } else {
-                a.push(k.to_string());
-                a.push(v.to_string());
+                vec![k.to_string(), v.to_string()]
             }
         };
-        kv(&mut a, "--output", out);
+        groups.push(kv(if self.short_o { "-o" } else { "--output" }, out));
         match &self.invalid {
-            Some(Invalid::UnsupportedAlg(f)) => a.push(f.clone()),
+            Some(Invalid::UnsupportedAlg(f)) => groups.push(vec![f.clone()]),
             _ => {
                 if let Some(f) = &self.alg {
-                    a.push(f.clone());
+                    groups.push(vec![f.clone()]);
                 }
             }
         }
         if self.client_auth {
-            a.push("--client-auth".into());
+            groups.push(vec!["--client-auth".into()]);
         }
         if self.server_auth {
-            a.push("--server-auth".into());
+            groups.push(vec!["--server-auth".into()]);
         }
         if let Some(n) = &self.cert_file_name {
-            kv(&mut a, "--cert-file-name", n);
+            groups.push(kv("--cert-file-name", n));
         }
         if let Some(n) = &self.ca_file_name {
-            kv(&mut a, "--ca-file-name", n);
+            groups.push(kv("--ca-file-name", n));
         }
+        // the relative order of the --san occurrences is kept (they form one list)
+        let mut san_groups: Vec<Vec<String>> = Vec::new();
         for s in &self.sans {
             match s {
-                SanArg::Dns(h) => kv(&mut a, "--san", h),
-                SanArg::Ip(t, _) => kv(&mut a, "--san", t),
+                SanArg::Dns(h) => san_groups.push(kv("--san", h)),
+                SanArg::Ip(t, _) => san_groups.push(kv("--san", t)),
             }
         }
         if let Some(Invalid::NonAsciiSan(s)) = &self.invalid {
-            kv(&mut a, "--san", s);
+            san_groups.push(kv("--san", s));
         }
         if let Some(n) = &self.common_name {
-            kv(&mut a, "--common-name", n);
+            groups.push(kv("--common-name", n));
         }
         match &self.invalid {
-            Some(Invalid::NonPrintableCountry(c)) => kv(&mut a, "--country-name", c),
+            Some(Invalid::NonPrintableCountry(c)) => groups.push(kv("--country-name", c)),
             _ => {
                 if let Some(c) = &self.country {
-                    kv(&mut a, "--country-name", c);
+                    groups.push(kv("--country-name", c));
                 }
             }
         }
         if let Some(o) = &self.org {
-            kv(&mut a, "--organization-name", o);
+            groups.push(kv("--organization-name", o));
         }
+        if self.arg_order != 0 {
+            let mut r = Rng::new(self.arg_order);
+            r.shuffle(&mut groups);
+            // scatter the --san occurrences between the other options, order among themselves kept
+            let mut out_groups: Vec<Vec<String>> = Vec::new();
+            let mut sans = san_groups.into_iter().peekable();
+            for g in groups {
+                while sans.peek().is_some() && r.chance(1, 3) {
+                    out_groups.push(sans.next().unwrap());
+                }
+                out_groups.push(g);
+            }
+            out_groups.extend(sans);
+            return out_groups.into_iter().flatten().collect();
+        }
+        // canonical order: sans after the file names, as before
+        let mut a: Vec<String> = Vec::new();
+        let split = groups.iter().position(|g| g[0].starts_with("--common-name") || g[0].starts_with("--country-name") || g[0].starts_with("--organization-name")).unwrap_or(groups.len());
+        for (i, g) in groups.into_iter().enumerate() {
+            if i == split {
+                a.extend(san_groups.drain(..).flatten());
+            }
+            a.extend(g);
+        }
+        a.extend(san_groups.into_iter().flatten());
         a
     }
 }
@@ -551,6 +585,8 @@ impl Engine for CliSim {
             push(&|x| x.ca_file_name = None);
             push(&|x| x.alg = None);
             push(&|x| x.eq_form = false);
+            push(&|x| x.arg_order = 0);
+            push(&|x| x.short_o = false);
             push(&|x| x.common_name = x.common_name.as_ref().map(|_| "cn".to_string()));
         }
         v
